@@ -192,6 +192,17 @@ def run_cbmc(job):
         return res
     witness = None
     unwind_fail = []
+    if re.search(r": UNKNOWN$", out, re.M) and job.backend != "sat":
+        # non-incremental back ends (external SAT, SMT) leave the remaining properties UNKNOWN once
+        # several fail in different iterations: re-decide this query on the incremental SAT back end
+        import copy
+        j2 = copy.copy(job)
+        j2.backend = "sat"
+        j2.timeout = max(job.timeout, 900)
+        r2 = run_cbmc(j2)
+        r2["backend"] = job.backend + "+sat(rerun)"
+        r2["wall_s"] = round(r2["wall_s"] + wall, 2)
+        return r2
     for line in out.splitlines():
         m = RE_PROP.match(line)
         if m:
@@ -202,6 +213,8 @@ def run_cbmc(job):
             elif " MUSTFAIL " in " " + desc:
                 if st != "FAILURE":      # proved although it must be refutable: independence -> violation
                     res["failed"].append((pid, desc + " [proved, but must be refutable]"))
+            elif st == "UNKNOWN":
+                res.setdefault("unknown", []).append(pid)
             elif st != "SUCCESS":
                 if "unwinding assertion" in desc or ".unwind." in pid:
                     unwind_fail.append((pid, desc))
@@ -223,6 +236,10 @@ def run_cbmc(job):
         res["why"] = "cbmc did not reach a verdict (rc=%s): %s" % (rc, out[-600:])
         return res
     res["unwind_failed"] = unwind_fail
+    if res.get("unknown") and not res["failed"]:
+        res["status"] = "INCONCLUSIVE"
+        res["why"] = "%d properties left UNKNOWN by the back end" % len(res["unknown"])
+        return res
     if res["failed"]:
         res["status"] = "FAIL"
     elif unwind_fail:
